@@ -121,21 +121,8 @@ def check(case):
     out.cls('has_reference_or_shared')
     out.nontrivial = True
   else:
-    old, _ = dags.build(case['old'])
-    applied = []
     try:
-      if case['mode'] == 'independent':
-        new, _ = dags.build(case['new'])
-      else:
-        new = copy.deepcopy(old) if case['mode'] == 'edits' else copy.copy(old)
-        for e in case['edits']:
-          try:
-            k = c10.apply_edit(new, e, top_only=(case['mode'] != 'edits'))
-          except (TypeError, AttributeError, NotImplementedError):
-            k = None
-          if k:
-            applied.append(k)
-      C.canon(new)
+      old, new, applied = c10.make_pair(case)
     except RecursionError:
       out.skipped = 'recursion'
       return out
